@@ -3,6 +3,7 @@ package main
 import (
 	"verif/drv"
 
+	_ "verif/props/c01"
 	_ "verif/props/c07"
 	_ "verif/props/c08"
 	_ "verif/props/c11"
